@@ -136,9 +136,8 @@ Definition outcome_eqb (a b : outcome) : bool :=
   | _, _ => false
   end.
 
-Definition supported_types : list string :=
-  ["Ed25519Signature2018"; "JsonWebSignature2020"; "EcdsaSecp256k1Signature2019"; "BbsBlsSignature2020";
-   "BbsBlsSignatureProof2020"; "Ed25519Signature2020"].
+(* the proof types verifiable.getProofType lets through: GENERATED (go/ast over embedded_proof.go) *)
+Definition supported_types : list string := supported_proof_types.
 Definition di_type : string := "DataIntegrityProof".
 
 Section LD.
@@ -372,8 +371,7 @@ Section LD.
     | JObj m =>
       (* json.Unmarshal into models.Proof: every known member must be a string (or null) *)
       if negb (forallb (fun k => is_str_or_absent (lookup m k))
-                 ["id"; "type"; "cryptosuite"; "proofPurpose"; "verificationMethod"; "created"; "domain";
-                  "challenge"; "proofValue"; "previousProof"]) then Rejected else
+                 di_proof_members) then Rejected else   (* GENERATED: the fields of models.Proof, by reflection *)
       let ty := str_entry (lookup m "type") in
       let vm := str_entry (lookup m "verificationMethod") in
       let pu := str_entry (lookup m "proofPurpose") in
